@@ -129,7 +129,8 @@ U3 = universe("U3", 4, [
     ("(sum (v 1) 1 2 (f 1 2))", "(v 1)"),
     ("(let 1 (v 1) (v 1))", "(v 1)"),
     ("(k (v 1) 1 (f 1 2))", "(k (v 1) 3 (f 3 2))"),   # alpha-equal
-], note="binder heavy: let, nested lam, sum (Bind Bind), k (child before binder)")
+], base=["(sum c 2 3 (f 2 3))", "(sum c 2 3 (f 3 2))", "(g (sum c 2 3 (f 2 3)))", "(sum c 2 3 (f 3 3))"],
+   note="binder heavy: let, nested lam, sum (Bind Bind), k (child before binder); CLOSED nodes that bind two slots of one symmetric child")
 
 # U4 "parents": classes that already have usages (parents, grand-parents, binders over them) when
 # they are merged, get a symmetry or lose a slot.  The base terms are inserted up front and are
